@@ -411,6 +411,7 @@ func checkC11() *CheckDef {
 			for n := 2; n <= b.lc; n++ {
 				out = append(out, &sym.HarnessConfig{Name: "h11c", Pkg: idlIntPkg, Params: map[string]int{"n": n}, Budget: 6000000})
 			}
+			out = append(out, &sym.HarnessConfig{Name: "h11p", Pkg: idlIntPkg, Budget: 6000000})
 			for n := 0; n <= b.nd; n++ {
 				out = append(out, &sym.HarnessConfig{Name: "h11d", Pkg: idlIntPkg, Params: map[string]int{"n": n}, Budget: 6000000})
 			}
@@ -429,7 +430,7 @@ func checkC11() *CheckDef {
 			b := bounds(tier)
 			return map[string]interface{}{
 				"literal_bytes_max": b.la, "literal_grammar": "quotes + ASCII body with escapes \\n \\r \\t \\\\ \\' \\\" only (other escapes are outside the claim)",
-				"docstring_bytes_max": b.lb, "docstring_whitespace_lines": "every whitespace-only line of the comment is an empty line of the docstring: all inputs of <= 4 bytes", "literal_in_context_bytes_max": b.lc, "arbitrary_document_bytes_max": b.nd,
+				"layout": "h11p: two definitions (const/typedef/struct, then const) whose three inter-token gaps are 1..2 symbolic white-space bytes each: accepted, every definition at the line and column of its first byte", "docstring_bytes_max": b.lb, "docstring_whitespace_lines": "every whitespace-only line of the comment is an empty line of the docstring: all inputs of <= 4 bytes", "literal_in_context_bytes_max": b.lc, "arbitrary_document_bytes_max": b.nd,
 				"integer_literals": "decimal: 1..3 symbolic digits, optional sign; hex: 1..2 symbolic digits, and 16 digits with a symbolic leading digit",
 				"field_lists": "h11s: struct / exception / parameter lists of 2 fields from a menu (id or none, required/optional/none, separator , ; none, docstring), symbolic field names, optionally after an earlier Parse that left a docstring unclaimed or failed: ids, requiredness, names, docstrings, lines",
 				"ast_walk":         "one program with a constant of each scalar kind (symbolic values), a list and a map: every node visited once with a parent",
